@@ -71,6 +71,25 @@ func (ex *Exec) compileBool(fr *Frame, st, old *State, e *Expr, goal bool) (t *T
 	return env.boolExpr(e, goal)
 }
 
+// compileInt: an integer-valued specification expression (loop measures).
+func (ex *Exec) compileInt(fr *Frame, st, old *State, e *Expr) (t *Term, err error) {
+	env := ex.frameEnv(fr, st, old)
+	defer func() {
+		if r := recover(); r != nil {
+			if ce, ok := r.(compileErr); ok {
+				err = fmt.Errorf("%s", ce.msg)
+				return
+			}
+			panic(r)
+		}
+	}()
+	v := env.compile(e, 0)
+	if len(v.C) != 1 || v.C[0].Sort != IntSort {
+		return nil, fmt.Errorf("expression %s is not an integer", e)
+	}
+	return v.C[0], nil
+}
+
 func (env *Env) boolExpr(e *Expr, goal bool) (t *Term, err error) {
 	defer func() {
 		if r := recover(); r != nil {
@@ -153,8 +172,39 @@ func (env *Env) compile(e *Expr, pol int) Value {
 	return Value{}
 }
 
+// paramSpill: the local a reassigned parameter lives in (go/ssa stores the parameter into it on entry).
+func paramSpill(fn *ssa.Function, name string) *ssa.Alloc {
+	if fn == nil || len(fn.Blocks) == 0 {
+		return nil
+	}
+	for _, in := range fn.Blocks[0].Instrs {
+		if st, ok := in.(*ssa.Store); ok {
+			if p, ok := st.Val.(*ssa.Parameter); ok && p.Name() == name {
+				if a, ok := st.Addr.(*ssa.Alloc); ok {
+					return a
+				}
+			}
+		}
+	}
+	return nil
+}
+
 func (env *Env) ident(name string) Value {
 	if v, ok := env.vars[name]; ok {
+		// inside a loop (invariants, measures, loop frames) a reassigned parameter means its current value;
+		// everywhere else a parameter name means the value passed in
+		if env.fr != nil && env.fr.curLoop != nil && env.st != env.old {
+			if a := paramSpill(env.fr.fn, name); a != nil {
+				t := derefType(a.Type())
+				if a.Heap {
+					if pv, ok := env.fr.regs[a]; ok {
+						return env.ex.readLoc(env.st, &Loc{Kind: LRef, Ref: pv.one(), Keys: refKeys(t), T: t})
+					}
+				} else if cs, ok := env.st.locals[a]; ok {
+					return Value{T: t, C: cs}
+				}
+			}
+		}
 		return v
 	}
 	switch name {
@@ -545,6 +595,16 @@ func (env *Env) binary(e *Expr, pol int) Value {
 				eq = Not(eq)
 			}
 			return boolVal(eq)
+		}
+		// the address of a local or of an embedded struct (interior pointer) is never nil
+		if a.T == untypedNil && b.Loc != nil {
+			a, b = b, a
+		}
+		if b.T == untypedNil && a.Loc != nil && len(a.C) == 0 {
+			if e.Op == "!=" {
+				return boolVal(True)
+			}
+			return boolVal(False)
 		}
 		if len(a.C) != len(b.C) {
 			cfail("%s: operands have different shapes (%s vs %s)", e, typeStr(a.T), typeStr(b.T))
